@@ -717,3 +717,24 @@ fn da_tapdance_eager() {
     kani::cover!(pre == 1, "takes over from another key's dance");
     core::mem::forget(l);
 }
+
+// @harness name=da_waiting_into_tap_chord_start prop=C09,C01 tier=quick timeout=1800
+// @encodes Layout::waiting_into_tap with the pressed-queue of a resolved chord (v1), do_action (KeyCode arm)
+// @inst Layout<3, 2, u8>
+// @bounds a resolved chord whose action is the constant key A; the chord was started by key (0,0) and has been re-bound to the key (0,1) whose release ended it; the pressed-queue holds the starting key (its first entry); symbolic timing scalars
+// @assumes none beyond the bounds
+// @spec the chord action is registered on the bound coordinate AND on the starting key from the pressed-queue (2 key states), so that the chord stays active while its first key is still held (only the count is read back: DESIGN A.2)
+#[kani::proof]
+#[kani::unwind(5)]
+fn da_waiting_into_tap_chord_start() {
+    let mut l: Layout<'static, 3, 2, u8> = vk_layout_literal(&VK_SRC, &VK_LAYERS);
+    let mut w = vk_da_waiting((0, 1));
+    w.config = WaitingConfig::Chord(&VK_CH_GROUP1);
+    l.waiting = Some(w);
+    let mut pq = PressedQueue::new();
+    let _ = pq.push_back((0, 0));
+    let ev = l.waiting_into_tap(Some(pq), -1);
+    assert!(matches!(ev, CustomEvent::NoEvent));
+    assert!(l.states.len() == 2, "the chord action is held on every participating key, including the one that started the chord");
+    core::mem::forget(l);
+}
